@@ -270,7 +270,7 @@ PROPS = {
     },
     'C19': {
         'source_transfer': ['TransferRender'],
-        'source_tie': ['Render', 'Str'],
+        'source_tie': ['Render', 'Str', 'CfgKeyData', 'KeyStr'],
         'jobs': [{'component': 'render', 'profile': 'render', 'quick': 90, 'thorough': 300},
                  {'component': 'level', 'profile': 'level', 'quick': 1200, 'thorough': 3000, 'project': 'result+sent'},
                  {'component': 'valset', 'profile': 'valget', 'quick': 120, 'thorough': 600},
